@@ -22,7 +22,7 @@ THEOREMS = ["Pfl.FST.relOutputs_iff",
 NAMES = ["q0", "q1", "q2", "q3", "a", "a0", "star", "star0"]
 
 
-def gen_fst(rng):
+def gen_fst(rng, alpha="ab"):
     n = rng.randint(1, 4)
     states = rng.sample(NAMES, n) if rng.random() < 0.4 else NAMES[:n]
     delta = []
@@ -38,7 +38,7 @@ def gen_fst(rng):
                 delta.append([states[i], None, states[j], [rng.choice("xy")] if rng.random() < 0.5 else []])
         else:
             out = [rng.choice("xy") for _ in range(rng.choice([0, 1, 1, 2]))]
-            delta.append([states[i], rng.choice("ab"), states[j], out])
+            delta.append([states[i], rng.choice(alpha), states[j], out])
     return {"states": states, "starts": rng.sample(states, min(n, rng.choice([1, 1, 2]))),
             "finals": rng.sample(states, min(n, rng.choice([0, 1, 1, 2]))), "delta": delta}
 
@@ -67,17 +67,33 @@ def canon(t):
             "delta": sorted({(q, a or "", r, tuple(o)) for q, a, r, o in t["delta"]})}
 
 
-def words3():
+class TooManyOutputs(Exception):
+    pass
+
+
+def capped(gen, cap=4000):
+    """transducers whose epsilon cycles write nothing have finitely many outputs per word: an enumeration that
+    does not stop is a failure, not a reason to fill the memory"""
+    for i, x in enumerate(gen):
+        if i >= cap:
+            raise TooManyOutputs()
+        yield x
+
+
+def words3(alpha="ab"):
     out = [[]]
     for n in (1, 2, 3):
         import itertools
-        out += [list(w) for w in itertools.product("ab", repeat=n)]
+        out += [list(w) for w in itertools.product(alpha, repeat=n)]
     return out
 
 
 def generate(rng, tier):
     while True:
-        yield {"a": gen_fst(rng), "b": gen_fst(rng), "fa": F.gen_fa(rng, max_states=3, pool="str")}
+        # unusual but legal input letters: "\u025b" means epsilon for automata, not for transducers
+        alpha = "ab" if rng.random() < 0.85 else rng.choice(["a\u025b", "a$", "a\u03b5"])
+        yield {"a": gen_fst(rng, alpha), "b": gen_fst(rng, alpha), "fa": F.gen_fa(rng, max_states=3, pool="str"),
+               "alpha": alpha}
 
 
 def run_case(case, drv):
@@ -87,8 +103,17 @@ def run_case(case, drv):
     if st != "ok" or st2 != "ok":
         return res
     a, b = extract(ta), extract(tb)
+    # the transducer built through add_* must be the transducer described (what the relation is defined on)
+    for label, spec_, got_ in (("a", case["a"], a), ("b", case["b"], b)):
+        res.evals += 1
+        used = set(spec_["starts"]) | set(spec_["finals"]) | {x[0] for x in spec_["delta"]} | {x[2] for x in spec_["delta"]}
+        if canon(spec_) != canon(got_) or sorted(used) != sorted(set(got_["states"])) \
+                or sorted({x[1] for x in spec_["delta"] if x[1] is not None}) != sorted(getattr(ta if label == "a" else tb, "input_symbols")):
+            res.violation("add_transition", "the transducer built through the API is not the one described",
+                          detail={"spec": spec_, "built": got_})
+            return res
     res.nontrivial = len(a["states"]) >= 2 and len(a["delta"]) >= 3
-    words = words3()
+    words = words3(case.get("alpha", "ab"))
     rel_a = drv.call("fst.rel", T=a, words=words)
     rel_b = drv.call("fst.rel", T=b, words=words)
     if any(r is None for r in rel_a + rel_b):
@@ -97,7 +122,7 @@ def run_case(case, drv):
     # ---- translate ------------------------------------------------------------------------------
     model = drv.call("fst.translate", T=a, words=words)
     for w, want, mod in zip(words, rel_a, model):
-        got = outcome(lambda w=w: [list(o) for o in ta.translate(list(w))], limit=3.0)
+        got = outcome(lambda w=w: [list(o) for o in capped(ta.translate(list(w)))], limit=3.0, retry=False)
         res.evals += 1
         res.corr += 1
         if got[0] != "ok":
@@ -151,7 +176,13 @@ def run_case(case, drv):
         M = drv.call(dop, T=a, **({"U": b} if binary else {}))
         res.corr += 1
         diff = canon(r) != canon(M)
-        rr = drv.call("fst.rel", T=r, words=words)
+        try:
+            rr = drv.call("fst.rel", _timeout=20.0, T=r, words=words)
+        except Exception:  # pylint: disable=broad-except
+            # the operands' relations are finite (enumerated above); the result's is not, or is astronomically large
+            res.violation(opname, "the relation of the result cannot be enumerated although the operands' relations are finite "
+                          "(an epsilon cycle that writes output?)", detail={"result": r})
+            continue
         ok = True
         for w, outs in zip(words, rr):
             res.evals += 1
@@ -184,7 +215,7 @@ def run_case(case, drv):
                       "delta": [[str(scodes.code(q)), a, str(scodes.code(r)), o] for q, a, r, o in t["delta"]]}
                 if canon(tc) != canon(mt):
                     res.corr_break("to_fst", "structure differs from the model", detail={"impl": canon(tc), "model": canon(mt)})
-            ws = words
+            ws = words3()
             if st == "ok" and all(isinstance(s, str) for s in t["states"]):
                 rr = drv.call("fst.rel", T=t, words=ws)
                 mem = drv.call("fa.member", A=A, words=[[ "abc".index(c) for c in w] for w in ws])
